@@ -127,6 +127,12 @@ CHECKS["C06"] = {
     "text": "(i) For the operation catalogue with symbolic geometry and a symbolic block coordinate, the real apply_blockwise run twice issues the same reads and writes (a function of (coordinates, config) only), writes each output array exactly once, into the region of its own block coordinates and inside the array, and never reads an array it writes; with C05's disjointness of task regions this yields order/repetition/placement independence of the stored values (stated argument). (iii) random(): the Philox key of a block is valid for every 128-bit root seed, identical on re-execution of the block and distinct for distinct blocks.",
     "note": _GEOM_NOTE + " Determinism of NumPy functions, cloudpickle round trips and third-party process-global state are outside; 'after downstream operations ran' needs C07.",
 }
+CHECKS["C03"] = {
+    "engine": "sx",
+    "technique": "bounded symbolic execution (z3) of the memory formula, of what the real op construction feeds into it, and of the real task body on ledger-tracked abstract arrays (allocation model)",
+    "text": "(A) calculate_projected_mem equals reserved + sum(in*(1+read copies)) + extra + out*(1+write copies) for symbolic sizes/copies and is monotone; for the operation catalogue with symbolic geometry the real construction projects at least reserved + 2x the chunk memory of EVERY input + 2x the largest output chunk. (B) the real apply_blockwise runs one task of every operation (unfused, and fused by the real default optimizer) at a symbolic block coordinate on abstract arrays that register their bytes in a ledger on creation and release them when CPython frees them; reads/writes add the documented transient copies; at every allocation point reserved + live bytes <= projected_mem. Known finding (confirmed with tracemalloc on the real code): fused operations with a lazily consuming successor under-project.",
+    "note": "decided against an ALLOCATION MODEL (stubs/anp.py: which NumPy functions allocate, which return views; validated for shapes against NumPy), not against the real allocator: LAPACK work buffers, codec internals, interpreter overhead and 2-d symbolic geometry are outside; a change that only consumes slack of a declaration is (correctly) not reported.",
+}
 for p in PENDING:
     if p not in CHECKS:
         NOT_APPLICABLE[p] = "check not built yet in this revision (planned, see DESIGN.md §5)"
